@@ -609,6 +609,28 @@ func portableDecoderRulesImpl(c *Check, prefix string) {
 		}
 		c.Cond(okRec, "R03.5", "decodeBlock(portable)#recover", p.Pos(fn.Pos()), "a deferred recover is installed before any instruction that can panic and turns the panic into a negative result", "defer dominates all panicking instructions; handler stores a negative constant", why)
 	}
+	// The body of the decoder may have been moved into a function of its own, leaving clipping, the empty-input exit
+	// and the recover in decodeBlock: `return body(dst, src, dict)` as the only non-constant result, with the clipped
+	// slices as arguments. The prover then works on the body under what the wrapper has established.
+	wrapper := fn
+	if body, clipped, nonEmpty := decoderBodyOf(fn); body != nil {
+		c.Funcs[fname(body)+" [noasm]"] = true
+		fn = body
+		goPre = func(g *goProg, a *AbsState) {
+			for name := range clipped {
+				if L, ok := g.lenSym[name]; ok {
+					if C, okC := g.capSym[name]; okC {
+						a.st.eqq(C, L)
+					}
+				}
+			}
+			if nonEmpty {
+				if L, ok := g.lenSym["src"]; ok {
+					a.st.le(linI(1).Sub(L))
+				}
+			}
+		}
+	}
 	// prover
 	h := &decHooks{srcLenVals: map[ssa.Value]bool{}}
 	coll := newCollector()
@@ -874,7 +896,30 @@ func portableDecoderRulesImpl(c *Check, prefix string) {
 	if res.trouble != "" {
 		c.TroubleF("portable decoder: %s", res.trouble)
 	}
-	if !g.recovers {
+	recovers := g.recovers
+	if wrapper != fn {
+		// the recover sits in the wrapper: it must be installed before the body is called
+		allInstrs(wrapper, func(in ssa.Instruction) {
+			d, ok := in.(*ssa.Defer)
+			if !ok {
+				return
+			}
+			if t := deferTarget(d); t != nil {
+				for _, f := range withAnon(t) {
+					allInstrs(f, func(j ssa.Instruction) {
+						if _, isRec := isBuiltinCall(j, "recover"); isRec {
+							for _, ci := range callsIn(wrapper) {
+								if staticCallee(ci) == fn && (d.Block() == ci.Block() && idxOf(d) < idxOf(ci) || d.Block() != ci.Block() && d.Block().Dominates(ci.Block())) {
+									recovers = true
+								}
+							}
+						}
+					})
+				}
+			}
+		})
+	}
+	if !recovers {
 		c.Fail(rule("5"), "decodeBlock(portable)#recover-mode", p.Pos(fn.Pos()), "panics of the portable decoder are recovered", "no deferred recover: index panics would escape")
 	}
 	switch {
@@ -1195,4 +1240,89 @@ func rulePortableEndsAfterMatch(c *Check, p *Program, top *ssa.Function, rule st
 	ok, _ := reachAvoid(fn, best.Instrs[0], success, readsSrc)
 	c.Sites++
 	c.Cond(ok, rule, "go|decodeBlock#ends-after-match", p.InstrPos(best.Instrs[0]), "from the head of the sequence loop the success return is reachable without reading another source byte: a block may end right after a match, as the assembly decoders accept", "loop head tests the cursor against len(src) and leaves to the success return", "every path from the loop head to the success return reads the source first: a block whose last sequence is a match makes the portable decoder read past the end and report an error that the assembly decoders do not")
+}
+
+
+// decoderBodyOf: decodeBlock reduced to a wrapper. Its only non-constant result is the result of a call of a
+// function of the package that receives the three slices under their own names; returns that function, the names of
+// the parameters handed over clipped to their length (x[:len(x):len(x)]), and whether the call lies behind an exit
+// taken for an empty source.
+func decoderBodyOf(fn *ssa.Function) (*ssa.Function, map[string]bool, bool) {
+	var call *ssa.Call
+	ok := true
+	resolve := func(v ssa.Value, blk *ssa.BasicBlock) ssa.Value {
+		if ld, isL := v.(*ssa.UnOp); isL && ld.Op == token.MUL {
+			if _, isAl := ld.X.(*ssa.Alloc); isAl {
+				for _, j := range blk.Instrs {
+					if st, isS := j.(*ssa.Store); isS && st.Addr == ld.X {
+						v = st.Val
+					}
+				}
+			}
+		}
+		return v
+	}
+	allInstrs(fn, func(in ssa.Instruction) {
+		r, isR := in.(*ssa.Return)
+		if !isR || len(r.Results) != 1 || in.Block() == fn.Recover {
+			return
+		}
+		v := resolve(r.Results[0], in.Block())
+		if _, isK := v.(*ssa.Const); isK {
+			return
+		}
+		cl, isC := v.(*ssa.Call)
+		if !isC || (call != nil && call != cl) {
+			ok = false
+			return
+		}
+		call = cl
+	})
+	if !ok || call == nil {
+		return nil, nil, false
+	}
+	body := staticCallee(call)
+	if body == nil || !inModule(body) || body.Pkg != fn.Pkg || len(body.Blocks) == 0 || len(body.Params) != len(call.Call.Args) {
+		return nil, nil, false
+	}
+	clipped := map[string]bool{}
+	slices := 0
+	for i, a := range call.Call.Args {
+		if !isSliceType(a.Type()) {
+			continue
+		}
+		slices++
+		root := a
+		isClip := false
+		if sl, isS := a.(*ssa.Slice); isS {
+			if prm, isP := sl.X.(*ssa.Parameter); isP && sl.Low == nil && isLenOf(sl.High, prm) && isLenOf(sl.Max, prm) {
+				root, isClip = prm, true
+			}
+		}
+		prm, isP := root.(*ssa.Parameter)
+		if !isP || prm.Name() != body.Params[i].Name() {
+			return nil, nil, false // the prover's obligations name the slices dst, src and dict
+		}
+		if isClip {
+			clipped[prm.Name()] = true
+		}
+	}
+	if slices < 3 {
+		return nil, nil, false
+	}
+	nonEmpty := false
+	for _, a := range atomsOfBlock(call.Block()) {
+		neg := a
+		neg.Val = !a.Val
+		if z := atomSaysZero(neg); z != nil {
+			if lc, isL := z.(*ssa.Call); isL && len(fn.Params) >= 2 {
+				if bi, isB := lc.Call.Value.(*ssa.Builtin); isB && bi.Name() == "len" {
+					if sl, isS := lc.Call.Args[0].(*ssa.Slice); isS && sl.X == ssa.Value(fn.Params[1]) || lc.Call.Args[0] == ssa.Value(fn.Params[1]) {
+						nonEmpty = true
+					}
+				}
+			}
+		}
+	}
+	return body, clipped, nonEmpty
 }
